@@ -63,6 +63,9 @@ def corpus():
         H([{"op": "meta", "topics": [], "plan": {"metas": [m1]}}, send([[0, 1], [1, 0]]),
            {"op": "meta", "topics": [], "plan": {"metas": [_meta([[1, 101, 9092], [2, 112, 9092]], [[0, 1, [[0, 0, 2]]]])]}},
            {"op": "drop", "node": 2}, send([[0, 1], [1, 0]], live_addrs=[[101, 9092], [112, 9092]])]),
+        # a full refresh that names no broker at all must not close anything
+        H([{"op": "meta", "topics": [], "plan": {"metas": [m1]}}, send([[0, 1], [0, 0]]),
+           {"op": "meta", "topics": [], "plan": {"metas": [_meta([], [[0, 0, [[0, 0, -1]]]])]}}, send([[1, 0]])]),
         # failed send (silent broker) empties the cache; the retry reloads everything
         H([{"op": "meta", "topics": [], "plan": {"metas": [m1]}},
            send([[0, 0], [0, 1]], bad={"2": "silent"}, meta_default=m1), send([[0, 0], [0, 1]], meta_default=m1, **world)]),
